@@ -172,6 +172,23 @@ CHECKS = {
             'DESIGN.md 2 C13'),
 }
 
+# history / state-leak workloads added after the seeded-break rounds (appended to the level text)
+EXTRA = {
+    'C01': ' Directed scenarios: substitution that fixes a schematic type variable only through its instances, open instances under binders, one hypothesis object placed at two binder depths by the kernel itself.',
+    'C02': ' W-HIST: a proof object is checked, edited as the editor edits it (item replaced / arguments or citations changed in place) and checked again; the verdict must be the verdict of a fresh object with the same content.',
+    'C03': ' Every sub-object of a hashed term is compared (==, hash) with a freshly built equal term, parent hashed first and parts first, incl. right-nested conj/disj chains.',
+    'C04': ' W-HIST for auto (premise / hypothesis-free premise / no premise in both orders); arguments retyped nat<->int<->real; generated goals at all three numeric types offered to every arithmetic macro that has an expansion.',
+    'C05': ' W-HIST: a decided goal is released and a different goal of the same shape is allocated on the same address (id reuse).',
+    'C06': ' W-HIST: a call that fails inside the translation after asserting the coming goal as its premise, then the goal; solveset memo differential.',
+    'C07': ' W-HIST: memo differential and reprint-after-composite, judged by whether the text reads back to the term.',
+    'C08': ' W-HIST: constants redeclared at another type in ad-hoc theories; directed terms whose binder types follow only through a chain of nested instantiations.',
+    'C10': ' W-HIST: the same terms normalised under a limited and under the full nat theory in both orders.',
+    'C12': ' The dump also records what the accessors (get_theorem, get_term_sig) hand out, and every load is followed by look-ups as a user of the theory makes them.',
+    'C15': ' Tseitin formulas whose atoms are all named like the introduced variables (x<i>, one-/two-digit boundary, leading zeros).',
+    'C18': ' End-to-end scripts with nested / multi-assumption subproofs, assumptions after a closed inner block, blocks without steps, first-order bind blocks; structural oracle on every accepted closing step (premise = last step of its own block, local assumptions discharged).',
+    'C19': ' API histories: forward through Calculation.perform_rule, go back, redo; redone steps judged against the substitutions of the steps still in the calculation. Directed interval arithmetic over a systematic family of ranges.',
+}
+
 NOT_YET = {}
 
 
@@ -188,7 +205,7 @@ def main():
                 'thorough_cmd': './check %s thorough' % pid,
                 'evidence_file': 'evidence/%s.json' % pid,
                 'replay_cmd_template': './check %s --replay {path}' % pid,
-                'level_claimed': {'category': 'exploration', 'text': text, 'design_ref': ref},
+                'level_claimed': {'category': 'exploration', 'text': text + EXTRA.get(pid, ''), 'design_ref': ref},
                 'level_note': note,
                 'technique': tech,
             })
